@@ -270,7 +270,7 @@ CHECKS = {
              'str::lines()-item length + 1 (lines() strips CR LF too). Every library construction of a lexer hands over a line table '
              'built from exactly the lexer\'s text: NewlineCache::from_str(text), or pieces that provably tile it (ghost-cursor argument). '
              'A lexer\'s line_col answers both ends of a span with the line table\'s query; no unchecked subtraction is made from the length of a '
-             'str::lines() item (it excludes the terminator a position may lie in). The caret line of a diagnostic is indented by the width of the line number printed on that very line.',
+             'str::lines() item (it excludes the terminator a position may lie in). The caret line of a diagnostic is indented by the width of the line number printed on that very line. The column functions count the text of a line as it is: nothing is trimmed, stripped, replaced or filtered before a count.',
         note='A necessary condition of "the lines-of-span query never panics, including spans that end at a line start or at '
              'the end of the text"; it found the out-of-bounds read fixed in /repo 707b1f1 and the subtraction overflow fixed in 3bc64fc. NOT decided: that line '
              'numbers and returned byte ranges are the right ones, the str slicing done with them in lrlex/lrpar, '
